@@ -1,6 +1,48 @@
+(* C04 - Adj-RIB-Out converges: the peer ends up with exactly the intended routes. Statements only.
+   Model: Model_Rib (OutgoingRIB + Cache as insertion-ordered dictionaries, the live update generator,
+   the peer's table, the operator's intention).  Every finite operation history, every interleaving of
+   operations with partial consumption of the generator (Start/Emit anywhere), cache kept. *)
 From Coq Require Import ZArith Bool List.
-From ExaV Require Import lib.Amap model.Model_Rib.
+From ExaV Require Import lib.Amap model.Model_Rib proofs.Proofs_Rib.
 Import ListNotations.
-Theorem C04_placeholder : drained (r (sys0 true)).
-Proof. repeat split. Qed.
-Print Assumptions C04_placeholder.
+Open Scope Z_scope.
+
+(* invariant of every reachable state (established: what is in flight + queued, applied to the peer's
+   table, gives the reported table; the reported table is the operator's intention) *)
+Theorem C04_invariant : forall ops, Inv (run ops (sys0 true)).
+Proof. intros. apply run_inv, Inv0. Qed.
+
+(* once the queue has drained: peer table = Adj-RIB-Out as reported = what the operator asked for *)
+Theorem C04_converges : forall ops,
+  let s := run ops (sys0 true) in
+  up s = true -> drained (r s) ->
+  forall k, aget Z.eqb k (peer s) = option_map rval (aget Z.eqb k (seen (r s)))
+         /\ aget Z.eqb k (intended s) = option_map rval (aget Z.eqb k (seen (r s))).
+Proof. exact converges. Qed.
+
+(* no stale announcement survives a later announce of the same prefix *)
+Theorem C04_last_announce_wins : forall ops1 x (f : bool) ops2,
+  let s := run (ops1 ++ (if f then AnnForce x else Ann x) :: ops2) (sys0 true) in
+  forallb (fun o => negb (touches (ridx x) o)) ops2 = true ->
+  up s = true -> drained (r s) -> aget Z.eqb (ridx x) (peer s) = Some (rval x).
+Proof. exact last_operation_wins_announce. Qed.
+
+(* no withdrawn route is resurrected *)
+Theorem C04_withdrawn_stays_withdrawn : forall ops1 x ops2,
+  let s := run (ops1 ++ Wd x :: ops2) (sys0 true) in
+  forallb (fun o => negb (touches (ridx x) o)) ops2 = true ->
+  up s = true -> drained (r s) -> aget Z.eqb (ridx x) (peer s) = None.
+Proof. exact last_operation_wins_withdraw. Qed.
+
+(* non-vacuity: the history that used to diverge (announce x, y, x before one flush), then drained *)
+Example C04_example :
+  let x := {| ridx := 1; rfam := 0; rattr := 10; rnh := 5 |} in
+  let y := {| ridx := 1; rfam := 0; rattr := 11; rnh := 5 |} in
+  let s := run [Ann x; Ann y; Ann x; Start; Emit; Emit; Emit] (sys0 true) in
+  up s = true /\ drained (r s) /\ peer s = [(1, (10, 5))] /\ gen (r s) = [].
+Proof. vm_compute. repeat split. Qed.
+
+Print Assumptions C04_invariant.
+Print Assumptions C04_converges.
+Print Assumptions C04_last_announce_wins.
+Print Assumptions C04_withdrawn_stays_withdrawn.
